@@ -590,6 +590,28 @@ def run(prog, rep, tier):
     if n_sites < 2:
         raise CheckerError("R11.6: only %d chrono conversion sites found in scope (expected at least 2)" % n_sites)
 
+    # ------------------------------------------------------------ R11.11 a year-less file is never dismissed because of its modification time (lift of C03 R3.9)
+    # The modification time only dates the *last* message's year.  Whether the file holds messages inside
+    # the window is decided from the inferred dates; a shortcut "mtime (+ slack) is before --dt-after,
+    # skip the file" drops every message of a log whose mtime is months older than its newest lines
+    # (copied, restored, touched, or simply still being written under an old mtime).
+    import c03 as _c03b
+    from common import Report as _Rep11
+    R1111 = rep.rule("R11.11", "the text-log processor combines no window bound with the file's modification time (from C03 R3.9)")
+    sub39 = _Rep11("C03", "quick", dict(rep.meta))
+    r39_ = sub39.rule("R3.9", "lift")
+    _c03b.r39(prog, sub39, r39_)
+    n1111 = 0
+    for k_ in sorted(sub39.rules["R3.9"]["keys"]):
+        if "syslogprocessor" in k_ or "exec_syslogprocessor" in k_:
+            n1111 += 1
+            rep.examined(R1111, "R3.9|" + k_, sample={"rule": "R3.9", "instance": k_})
+    for (rid_, key_, what_, det_) in sub39.violations:
+        if "syslogprocessor" in key_ or "exec_syslogprocessor" in key_:
+            rep.violation(R1111, key_.split("|", 1)[1], what_)
+    if n1111 < 1:
+        raise CheckerError("R11.11: no SyslogProcessor method among the R3.9 instances")
+
     return rep.finish(
         "Static necessary-condition check of year inference: it runs exactly for year-less patterns, before streaming, seeded by the reader's "
         "mtime (Gz/Tar: the time stored inside); streamed year-less files disable block dropping; the assumed year starts at mtime's year in "
